@@ -656,6 +656,48 @@ static int rec_write(struct aws_log_writer *w, const struct aws_string *out) {
 static void rec_clean(struct aws_log_writer *w) { ((struct rec *)w->impl)->cleaned++; }
 static struct aws_log_writer_vtable rec_vtable = {.write = rec_write, .clean_up = rec_clean};
 
+/* ------------------------------------------------------------------ section staticline -------------------- */
+/* a channel is handed lines it takes ownership of - also statically initialised ones (AWS_STATIC_STRING_FROM_LITERAL: no
+ * allocator, destroying them is a documented no-op), which a caller may therefore send again.  Both deliveries must be the
+ * complete line (added after a seeded change that released delivered lines with the zeroing destroy, which wipes the bytes
+ * before it looks at the allocator).  Foreground and background channel, the line sent 1..3 times. */
+AWS_STATIC_STRING_FROM_LITERAL(s_static_line, "[INFO] fixed notice that is sent more than once\n");
+static uint64_t staticline_total(void) { return 2 * 3; }
+static void staticline_eval(uint64_t index, void *ctx) {
+    (void)ctx;
+    BEE_ITEM(index);
+    int background = (int)(index % 2), sends = (int)(index / 2) + 1;
+    V_COUNT("evaluations", 1);
+    V_COUNT("nontrivial", 1);
+    galloc_reset();
+    struct aws_allocator *alloc = galloc_get(0, 1);
+    struct rec rc;
+    memset(&rc, 0, sizeof(rc));
+    struct aws_log_writer w = {.vtable = &rec_vtable, .allocator = alloc, .impl = &rc};
+    struct aws_log_channel ch;
+    int irc = background ? aws_log_channel_init_background(&ch, alloc, &w) : aws_log_channel_init_foreground(&ch, alloc, &w);
+    if (irc) {
+        bee_fail("init-failed", "channel init failed");
+        return;
+    }
+    /* a writable copy of the static string object (same layout, allocator NULL), so that a library that writes to it shows as a
+     * wrong line rather than only as a fault on read-only memory */
+    size_t obj = offsetof(struct aws_string, bytes) + s_static_line->len + 1;
+    struct aws_string *line = (struct aws_string *)malloc(obj);
+    memcpy(line, s_static_line, obj);
+    for (int k = 0; k < sends; ++k)
+        if (ch.vtable->send(&ch, line)) bee_fail("send-failed", "send %d of a static line failed (error %d)", k, aws_last_error());
+    aws_log_channel_clean_up(&ch); /* the background channel flushes here */
+    BEE_CHECK((int)rc.n == sends, "line-count", "%s channel: a statically initialised line sent %d time(s), the writer saw %u", background ? "background" : "foreground", sends, rc.n);
+    for (unsigned k = 0; k < rc.n && k < REC_MAX; ++k)
+        BEE_CHECK(rc.len[k] == s_static_line->len && memcmp(rc.bytes[k], s_static_line->bytes, rc.len[k]) == 0, "static-line-damaged",
+                  "%s channel: delivery %u of a statically initialised line sent %d time(s) reads \"%s\"", background ? "background" : "foreground", k, sends, v_show(rc.bytes[k], rc.len[k]));
+    BEE_CHECK(memcmp(line, s_static_line, obj) == 0, "static-line-damaged", "the caller's statically initialised line was modified by the channel");
+    for (unsigned k = 0; k < rc.n && k < REC_MAX; ++k) free(rc.bytes[k]);
+    free(line);
+    if (ga.live_blocks != 0) bee_fail("allocator-imbalance", "%" PRIu64 " block(s) live after channel clean-up", ga.live_blocks);
+}
+
 struct rig {
     int kind; /* 0 pipeline (default formatter, foreground channel, recording writer), 1 no-alloc logger on a memstream */
     int df;
@@ -1013,6 +1055,7 @@ int main(int argc, char **argv) {
     bee_register("deffmt", deffmt_total, deffmt_eval, 20);
     bee_register("noalloc", noalloc_total, noalloc_eval, 20);
     bee_register("stderrdef", stderrdef_total, stderrdef_eval, 20);
+    bee_register("staticline", staticline_total, staticline_eval, 20);
     bee_register("gate", gate_total, gate_eval, 20);
     bee_register("fmtline", fmtline_total, fmtline_eval, 20);
     bee_register("sinkfail", sinkfail_total, sinkfail_eval, 20);
